@@ -47,6 +47,22 @@ class Lock:
         self.f.close()
 
 
+def assumptions_of(prop):
+    """what the check trusts for this property: the level_note of MANIFEST.json plus the common base"""
+    out = []
+    try:
+        m = json.load(open(os.path.join(ROOT, "MANIFEST.json")))
+        for c in m.get("checks", []):
+            if c.get("property_id") == prop and c.get("level_note"):
+                out.append(c["level_note"])
+    except Exception:
+        pass
+    out += ["G1/G2 are vector spaces over the scalar field; pairing equations are read through the secret key (bilinearity, non-degeneracy); hash-derived generators are independent; SHAKE / merlin are collision resistant; Fiat-Shamir + forking lemma, q-SDH, PS assumption, DL, DDH are assumed (DESIGN.md A4)",
+            "the Lean model is hand-written; it is tied to /repo's working tree by the correspondence counted under traces_validated_against_impl and by the oracle cases run on the real code",
+            "third-party crates (blstrs_plus, bulletproofs, merlin, serde back ends, regex, aes-gcm) are called, not modelled"]
+    return out
+
+
 def props_info(prop):
     """theorem names declared in Props/<prop>.lean (namespace AC.<prop>)"""
     path = os.path.join(LEAN, "AnonCreds", "Props", prop + ".lean")
@@ -303,7 +319,7 @@ def main():
         "notes": gen["notes"] if gen else [],
     }
     ev = {"property_id": prop, "tier": tier, "seed": seed, "level": "proof", "coverage": cov,
-          "assumptions": ["see DESIGN.md §5 (trusted base) and the 'partial:' line of the property in §7"],
+          "assumptions": assumptions_of(prop),
           "wall_s": round(wall, 2), "violations": sum(1 for _ in violations)}
     json.dump(ev, open(os.path.join(EVID, prop + ".json"), "w"), indent=1)
     for l in lines:
